@@ -40,6 +40,10 @@ type c07Case struct {
 	// PlainServer (implicit policies only): the peer on that port is a clear-text SMTP server that greets first;
 	// a client doing implicit TLS sends it a ClientHello and nothing else
 	PlainServer bool `json:"plain_server,omitempty"`
+	// StaleCustom: a custom smtp.Auth that reveals the password on unencrypted connections (PLAIN with allowUnenc) is
+	// configured first and then replaced by the auth type of the case: "option" = WithSMTPAuthCustom followed by
+	// WithSMTPAuth, "setter" = SetSMTPAuthCustom followed by SetSMTPAuth. The later choice is the caller's choice.
+	StaleCustom string `json:"stale_custom_auth,omitempty"`
 }
 
 var c07AuthTypes = []string{"NOAUTH", "PLAIN", "PLAIN-NOENC", "LOGIN", "LOGIN-NOENC", "CRAM-MD5", "XOAUTH2", "SCRAM-SHA-1", "SCRAM-SHA-1-PLUS", "SCRAM-SHA-256", "SCRAM-SHA-256-PLUS", "AUTODISCOVER", "CUSTOM"}
@@ -190,8 +194,13 @@ func runC07Case(r *ev.Run, c c07Case) {
 		opts = opts[1:] // no WithPort: the API derives 465 / fallback 25 only from the default port
 		opts = append(opts, mail.WithSSLPort(true))
 	}
+	if c.StaleCustom == "option" {
+		opts = append(opts, mail.WithSMTPAuthCustom(smtp.PlainAuth("", user, pass, c.Host, true)))
+	}
 	if c.AuthType == "CUSTOM" {
 		opts = append(opts, mail.WithSMTPAuthCustom(verifCustomAuth{}))
+	} else if c.StaleCustom == "setter" {
+		// the type is chosen by the setter below
 	} else {
 		opts = append(opts, mail.WithSMTPAuth(mail.SMTPAuthType(c.AuthType)))
 	}
@@ -200,6 +209,13 @@ func runC07Case(r *ev.Run, c c07Case) {
 		_ = ln.Close()
 		r.HarnessError("C07 NewClient: " + err.Error())
 		return
+	}
+	if c.StaleCustom == "setter" {
+		cl.SetSMTPAuthCustom(smtp.LoginAuth(user, pass, c.Host, true))
+		cl.SetSMTPAuth(mail.SMTPAuthType(c.AuthType))
+	}
+	if c.StaleCustom != "" {
+		r.Count("sessions_after_a_replaced_custom_auth", 1)
 	}
 	if c.Policy == "implicit-setsslport" {
 		cl.SetSSLPort(true, false)
@@ -582,7 +598,7 @@ func runC07Shared(r *ev.Run, c c07SharedCase) {
 
 func runC07(r *ev.Run, rep *ev.ReplayDoc) ev.Summary {
 	sum := ev.Summary{
-		Rule: "matrix policy {mandatory, opportunistic, none, implicit (WithSSL; also WithSSLPort / SetSSLPort after an explicit WithPort, WithSSL followed by the STARTTLS policy NoTLS, and the fixed fallback port), QuickSend (opportunistic TLS and auto-discovery chosen by the library; the harness CA is the process's system root store)} x auth type (all 13; custom = a harness mechanism without password) x host {localhost, 127.0.0.1, 127.0.0.2 (a non-localhost name reachable on loopback; certificate SANs cover all three)} x server behaviour {STARTTLS advertised or not; STARTTLS reply 220 / 454 / 502 / garbage; handshake ok / wrong-name certificate / untrusted certificate / garbage bytes} x 4 advertised AUTH lists, over real loopback TCP with the library's own dialers (tls.Dialer for implicit TLS). thorough enumerates the full matrix (minus combinations that cannot differ), quick a deterministic covering subset. The tap below the TLS layer records every byte before the first TLS record. Plus sequences on one live Client: dial under NoTLS / opportunistic, SetTLSPolicy(TLSMandatory), dial again (with and without Close in between), send; and one *tls.Config without ServerName shared by two Clients for different hosts whose servers both present the certificate of the first host. distinct by case",
+		Rule: "matrix policy {mandatory, opportunistic, none, implicit (WithSSL; also WithSSLPort / SetSSLPort after an explicit WithPort, WithSSL followed by the STARTTLS policy NoTLS, and the fixed fallback port), a password-revealing custom smtp.Auth configured first and replaced by an auth type (option order, setter order), QuickSend (opportunistic TLS and auto-discovery chosen by the library; the harness CA is the process's system root store)} x auth type (all 13; custom = a harness mechanism without password) x host {localhost, 127.0.0.1, 127.0.0.2 (a non-localhost name reachable on loopback; certificate SANs cover all three)} x server behaviour {STARTTLS advertised or not; STARTTLS reply 220 / 454 / 502 / garbage; handshake ok / wrong-name certificate / untrusted certificate / garbage bytes} x 4 advertised AUTH lists, over real loopback TCP with the library's own dialers (tls.Dialer for implicit TLS). thorough enumerates the full matrix (minus combinations that cannot differ), quick a deterministic covering subset. The tap below the TLS layer records every byte before the first TLS record. Plus sequences on one live Client: dial under NoTLS / opportunistic, SetTLSPolicy(TLSMandatory), dial again (with and without Close in between), send; and one *tls.Config without ServerName shared by two Clients for different hosts whose servers both present the certificate of the first host. distinct by case",
 		Assumptions: []string{
 			"'localhost names' are localhost, 127.0.0.1, ::1; 127.0.0.2 stands for any other host",
 			"credentials are unique 16-18 character random strings; searched raw, base64 (3 alphabets), hex, and inside every base64 token of the cleartext",
@@ -677,6 +693,19 @@ func runC07(r *ev.Run, rep *ev.ReplayDoc) ev.Summary {
 			}
 		}
 		cases = append(cases, c07Case{Policy: "implicit", AuthType: "PLAIN-NOENC", Host: host, Reply: "220", Handshake: "ok", AuthList: c07AuthLists[0], PlainServer: true})
+	}
+	// a password-revealing custom mechanism configured first and replaced by an auth type afterwards
+	for _, sc := range []string{"option", "setter"} {
+		for _, at := range []string{"PLAIN", "LOGIN", "NOAUTH", "SCRAM-SHA-256", "AUTODISCOVER", "CRAM-MD5"} {
+			for _, pol := range []string{"none", "opportunistic", "mandatory"} {
+				for _, st := range []bool{false, true} {
+					if pol == "mandatory" && !st {
+						continue
+					}
+					cases = append(cases, c07Case{Policy: pol, AuthType: at, Host: "127.0.0.2", StartTLS: st, Reply: "220", Handshake: "ok", AuthList: c07AuthLists[1], StaleCustom: sc})
+				}
+			}
+		}
 	}
 	// QuickSend: opportunistic TLS and auto-discovery chosen by the library itself
 	for _, host := range []string{"127.0.0.2", "localhost"} {
